@@ -243,12 +243,17 @@ def model_matrices(pva, with_altitude):
     return InsErrorModel(with_altitude).system_matrices(pva)
 
 
-def check_generator(pva, w_rel, acc_n, with_altitude, dt=0.02):
-    """(A): returns list of (what, detail) failures and the worst ratios."""
+def check_generator(pva, w_rel, acc_n, with_altitude, dt=0.02, signals=None, mask=None, out=None):
+    """(A): returns list of (what, detail) failures and the worst ratios.
+    signals = (w_b, f_b): explicit body-frame readings instead of the level ones of body_signals (corpus witness);
+    mask: boolean matrix of F entries excluded from the comparison; out: dict receiving G, F, N, tol."""
     if not with_altitude:
         pva = pva.copy()
         pva.VD = 0.0
-    w, f = body_signals(pva, w_rel, acc_n, with_altitude)
+    if signals is None:
+        w, f = body_signals(pva, w_rel, acc_n, with_altitude)
+    else:
+        w, f = np.asarray(signals[0], dtype=float), np.asarray(signals[1], dtype=float)
     ns = 9 if with_altitude else 7
     P1, S1, _, _ = transition(pva, w, f, dt, 1, with_altitude)
     P2, S2, _, _ = transition(pva, w, f, dt / 2, 1, with_altitude)
@@ -278,6 +283,11 @@ def check_generator(pva, w_rel, acc_n, with_altitude, dt=0.02):
     tol1 = 1.5 * np.abs(N) + floor
     dFN = np.abs(G - (F + N))
     tol2 = 0.02 * np.abs(N) + floor
+    if out is not None:
+        out.update(G=G, F=F, N=N, tol=tol1)
+    if mask is not None:
+        dF = np.where(mask, 0.0, dF)
+        dFN = np.where(mask, 0.0, dFN)
     rat1 = float((dF / tol1).max())
     rat2 = float((dFN / tol2).max())
     if rat1 > 1:
@@ -450,6 +460,88 @@ def numeric_statements(r, n_states, n_filter, seed_shift=0):
     return fails, worst, dist
 
 
+CORPUS = None
+
+
+def _corpus_path():
+    import os
+    return os.path.join(os.path.dirname(os.path.dirname(os.path.dirname(os.path.abspath(__file__)))),
+                        'corpus', 'C04-findings.json')
+
+
+def run_witness(w):
+    """One corpus witness of the finding no-altitude-vertical-specific-force: a 2D-mode state with body-frame
+    readings whose vertical specific force is NOT the one of level motion.  Returns a dict with the measured and the
+    model value of the two gravity-tilt entries F2[DV1,PHI2], F2[DV2,PHI1], the vertical acceleration a_v the
+    2D integrator ignores, the deviation, and the failures of every OTHER entry (which must stay within tolerance)."""
+    from pyins import earth, transform
+    pva = pd.Series(w['pva'], index=COLS, dtype=float)
+    wb, fb = np.array(w['gyro']), np.array(w['accel'])
+    C = transform.mat_from_rph(pva[['roll', 'pitch', 'heading']].values)
+    v = np.array([pva.VN, pva.VE, 0.0])
+    cor = 2 * earth.rate_n(pva.lat) + earth.curvature_matrix(pva.lat, pva.alt) @ v
+    a_v = float((C @ fb)[2] + earth.gravity(pva.lat, pva.alt) - np.cross(cor, v)[2])
+    mask = np.zeros((7, 7), dtype=bool)
+    mask[2, 5] = mask[3, 4] = True           # DV1/PHI2 and DV2/PHI1
+    out = {}
+    fails, rat = check_generator(pva, None, np.zeros(3), False, signals=(wb, fb), mask=mask, out=out)
+    d = out['G'] - out['F'] - out['N']
+    return dict(a_v=a_v, measured=[float(out['G'][2, 5]), float(out['G'][3, 4])],
+                model=[float(out['F'][2, 5]), float(out['F'][3, 4])],
+                dev=[float(d[2, 5]), float(d[3, 4])], tol=float(out['tol'][2, 5]),
+                other_fails=[(what, det) for what, det in fails if 'B_gyro' not in what], ratios=rat)
+
+
+def corpus_witnesses(r):
+    """Recorded finding (known_findings.txt): run the witnesses FIRST.  While the implementation still shows the
+    deviation (gravity-tilt entries off by the vertical acceleration: well above the tolerance, within 50 % of the
+    predicted value) it is reported with the finding's key (KNOWN-FINDING line, exit 0); if it has disappeared this
+    is noted in the evidence; anything else is an ordinary violation."""
+    import os
+    import json
+    path = _corpus_path()
+    if not os.path.exists(path):
+        r.broken('harness', 'corpus', f"{path} is missing")
+        return
+    notes = []
+    for w in json.load(open(path))['cases']:
+        res = run_witness(w)
+        r.case(('corpus', w['name']), sample=dict(corpus=w['name'], **{k: res[k] for k in ('a_v', 'measured', 'model')}))
+        a = res['a_v']
+        d0, d1 = res['dev']
+        for what, det in res['other_fails']:
+            r.violation(f"corpus witness {w['name']}: outside the recorded finding: {what}",
+                        dict(key='C04-numeric', corpus=w['name'], witness=w, detail=det))
+        present = (abs(d0 + a) <= 0.5 * abs(a) and abs(d1 - a) <= 0.5 * abs(a) and abs(a) > 100 * res['tol'])
+        gone = abs(d0) <= res['tol'] and abs(d1) <= res['tol']
+        notes.append(dict(name=w['name'], vertical_acceleration=a, deviation=res['dev'], tol=res['tol'],
+                          still_present=bool(present)))
+        if present:
+            r.violation(f"corpus witness {w['name']}: no-altitude mode, vertical acceleration {a:.3f} m/s^2 not seen "
+                        f"by the 2D integrator: measured F2[DV1,PHI2], F2[DV2,PHI1] = {res['measured']} against the "
+                        f"model's {res['model']} (deviation {res['dev']}, expected (-a_v, +a_v))",
+                        dict(key=w['expect'], corpus=w['name'], witness=w, result=res))
+            r.log(f"corpus witness {w['name']}: deviation still present ({d0:+.3f}, {d1:+.3f} for a_v = {a:.3f}) "
+                  f"-> known finding {w['expect']}")
+        elif gone:
+            r.notes.append(f"corpus witness {w['name']} of finding {w['expect']} no longer deviates "
+                           f"(deviation {res['dev']}, tolerance {res['tol']:.2e})")
+            r.log(f"corpus witness {w['name']}: the deviation has disappeared")
+        else:
+            r.violation(f"corpus witness {w['name']}: gravity-tilt entries of F2 deviate by {res['dev']}, which is "
+                        f"neither the recorded finding (expected (-a_v, +a_v), a_v = {a:.3f}) nor within tolerance",
+                        dict(key='C04-numeric', corpus=w['name'], witness=w, result=res))
+    r.coverage['corpus_witnesses'] = notes
+
+
+def _covered_functions():
+    from pyins import error_model
+    from pyins.error_model import InsErrorModel
+    return {'InsErrorModel.system_matrices': InsErrorModel.system_matrices,
+            'InsErrorModel._transform_3d_2d': InsErrorModel._transform_3d_2d,
+            'propagate_errors': error_model.propagate_errors}
+
+
 def check(r):
     r.trusted += [
         "translator tools/sym.py + tools/ir2coq.py (symbolic tracing of InsErrorModel.system_matrices, both modes; "
@@ -469,10 +561,21 @@ def check(r):
         "the neglected-terms matrix N includes the term (Omega x phi) x v in the DV/PHI block (size <= 0.022 m/s^2 per "
         "rad at 300 m/s, 0.2 % of g) which the implemented modified phi-angle model leaves out",
     ]
+    import linecov
+    cov = linecov.LineCoverage(_covered_functions())
+    with cov:
+        corpus_witnesses(r)                      # FIRST: the witnesses of the recorded finding
     r.generate(['Earth', 'Transform', 'C04Gen'])
     r.prove('Props/C04.v')
     quick = r.tier == 'quick'
-    fails, worst, dist = numeric_statements(r, 24 if quick else 400, 10 if quick else 120)
+    with cov:
+        fails, worst, dist = numeric_statements(r, 24 if quick else 400, 10 if quick else 120)
+    summ, missing = cov.report(allow=())
+    r.coverage['code_lines'] = summ
+    r.log("line coverage of the modelled functions: " +
+          ", ".join(f"{k} {v['executed']}/{v['executable']}" for k, v in summ.items()))
+    if missing:
+        r.broken('correspondence', 'code line not exercised', missing)
     r.coverage['numeric_support'] = dict(failures=len(fails), worst_ratio_to_tolerance=worst)
     r.coverage['distribution'] = dist
     for what, rep in fails[:5]:
@@ -491,6 +594,12 @@ def falsify(r):
 
 def replay(obj):
     rep = obj.get('replay', obj)
+    if 'witness' in rep:                     # a corpus witness (known finding)
+        res = run_witness(rep['witness'])
+        print('C04 corpus witness', rep['witness'].get('name'), res)
+        a = res['a_v']
+        still = abs(res['dev'][0] + a) <= 0.5 * abs(a) and abs(res['dev'][1] - a) <= 0.5 * abs(a)
+        return 1 if (still or res['other_fails']) else 0
     pva = pd.Series(rep['pva'], index=COLS, dtype=float)
     w = np.array(rep['w'])
     acc = np.array(rep['acc'])
